@@ -146,6 +146,7 @@ class StateMachine(metaclass=StateMachineMetaclass):
 
         self._register_callbacks([])
         self.add_listener(*listeners.keys())
+        self._callbacks.async_or_sync()
         self._engine = self._get_engine(rtc)
         self._engine.start()
 
